@@ -30,11 +30,23 @@ def derive_widths(probe):
     return table
 
 
+OPNAMES = []      # names of the real opcodes by number (measured together with the widths)
+
+
 def real_widths():
     r = core.run_cases([{"id": "probe", "kind": "codec_probe"}])["probe"]
     if r.get("how") != "ok":
         raise core.ToolError("codec probe failed: %r" % r)
+    del OPNAMES[:]
+    OPNAMES.extend(p.get("name", "?") for p in r["probe"] if p.get("defined"))
     return derive_widths(r["probe"]), r["probe"]
+
+
+def opc():
+    """opcode numbers by name, as the real code numbers them"""
+    if not OPNAMES:
+        real_widths()
+    return {n: i for i, n in enumerate(OPNAMES)}
 
 
 class Marker:
@@ -128,5 +140,6 @@ def record(items, widths, mode=1, fuel=200000, max_events=6000):
             it["skipped"] = "trace too long"
             continue
         recs.append({"id": it["id"], "funcs": r["funcs"], "consts": r["consts"], "widths": widths, "mode": mode,
+                     "opnames": list(OPNAMES), "opc": opc(),
                      "trace": r["trace"], "end": {"how": r.get("how"), "sp": r.get("sp", -1), "fi": r.get("fi", -1)}})
     return recs
